@@ -7,7 +7,7 @@ print("| seed | property | change (author's words) | needs | confirmed | `./chec
 print("|---|---|---|---|---|---|---|")
 for p in sorted(glob.glob(os.path.join(V, "seeded", "*", "meta.json"))):
     m = json.load(open(p))
-    if m.get("kind") == "harmless":
+    if str(m.get("kind", "")).startswith("harmless"):
         continue     # behaviour-preserving rewrites (round 6): summarised in DESIGN.md 0.6, not breaking changes
     n = m.get("notes_from_author", {}) or {}
     def cell(s):
